@@ -361,3 +361,30 @@ Example fallback_example :
   run_path ex_rs ex_ps (default_cfg (fun _ => None)) (fun _ => false) (fun _ => false) None (PProp foo) = FDenied ENoMatch /\
   run_path ex_rs ex_ps (default_cfg (fun _ => None)) (fun _ => true) (fun _ => true) None (PCallMeth foo [[95; 95; 120]] true) = FDenied ERuntime.
 Proof. split; vm_compute; reflexivity. Qed.
+
+(* =====================================================================================
+   The index form and the object's own indexing protocol
+   ===================================================================================== *)
+
+(* on an object that is not subscriptable by a string key `$obj[key]` never reaches anything: the gate
+   refuses, or the expression gets the object's own TypeError (never an attribute read) *)
+Theorem C07_index_not_subscriptable_never_reads : forall rs ps st n,
+  (forall m, index_on rs ps INoStr st n <> Reach m) /\
+  (index_on rs ps INoStr st n = Denied EType <-> exists m, access rs ps FIndex st n = Reach m).
+Proof. exact index_not_subscriptable. Qed.
+
+Theorem C07_index_subscriptable_is_access : forall rs ps st n,
+  index_on rs ps ISubscript st n = access rs ps FIndex st n.
+Proof. exact index_subscriptable. Qed.
+
+(* the index form is governed by the indexer switch, the whitelist and the blacklist only: switching the
+   attribute / method forms off, or remapping attributes, changes nothing it does *)
+Theorem C07_index_ignores_attribute_settings : forall rs ps p s s' n,
+  s_indexer s = s_indexer s' -> s_white s = s_white s' -> s_black s = s_black s' ->
+  index_on rs ps p (Some s) n = index_on rs ps p (Some s') n.
+Proof. exact index_ignores_attribute_settings. Qed.
+
+Example index_on_record_example :
+  index_on ex_rs ex_ps INoStr (Some (build_settings ex_args)) alias = Denied EType /\
+  index_on ex_rs ex_ps INoStr (Some (build_settings ex_args)) bar = Denied EKey.
+Proof. split; reflexivity. Qed.
